@@ -248,3 +248,29 @@ macro_rules! multiuse_instance {
         vk_harness!($name, $unwind, { ew_multiuse_check(&[$($a),*], &[$($b),*], $uses, $passes); });
     };
 }
+
+// ---------------------------------------------------------------------------------------------
+// C04: contract of element_wise_dimensions with SYMBOLIC dimensions (each in 1..=3), concrete ranks.
+//   compatible pairs  -> pairwise maximum, right-aligned;  incompatible pairs -> refusal (panic)
+// ---------------------------------------------------------------------------------------------
+pub(super) fn ewd_check(ra: usize, rb: usize, compat: bool) {
+    let mut a: Vec<usize> = Vec::with_capacity(ra);
+    let mut b: Vec<usize> = Vec::with_capacity(rb);
+    let mut k = 0;
+    while k < ra { let d = sym_i64(); vassume(d >= 1 && d <= 3); a.push(d as usize); k += 1; }
+    k = 0;
+    while k < rb { let d = sym_i64(); vassume(d >= 1 && d <= 3); b.push(d as usize); k += 1; }
+    let spec = bcast_dims(&a, &b);
+    vassume(spec.is_some() == compat);
+    let r = element_wise_dimensions(&a, &b);
+    if compat {
+        assert!(dims_eq(&r, &spec.unwrap()), "C04 broadcast dimensions are the right-aligned pairwise maximum");
+    } else {
+        vk_must_not_return!();
+    }
+}
+macro_rules! ewd_instance {
+    ($name:ident, $unwind:expr, $ra:expr, $rb:expr, $compat:expr) => {
+        vk_harness!($name, $unwind, { ewd_check($ra, $rb, $compat); });
+    };
+}
